@@ -275,6 +275,16 @@ pub fn minimise(trace: &Trace, target: &Violation, mon: &str, ff: &FindingsFile,
             best_v = v;
         }
     }
+    // state probes (C20) run on a step cadence and at Quiesce: pin one to the end so that deleting
+    // steps does not lose the probe
+    if target.property == "C20" && !matches!(best.steps.last(), Some(Step::Quiesce)) {
+        let mut t = best.clone();
+        t.steps.push(Step::Quiesce);
+        if let Some(v) = same_violation(&replay_in(&t, mon), target, ff) {
+            best = t;
+            best_v = v;
+        }
+    }
     let mut tries = 0usize;
     let mut chunk = (best.steps.len() / 2).max(1);
     while chunk >= 1 && tries < budget {
